@@ -28,6 +28,7 @@ for d in sorted((V / "seeded").glob("C*/*/")):
         print(f"{pid}/{n}: ?? {txt[-300:]}")
         continue
     rec = {"check_exit": int(ex.group(1)), "demo_clean": int(ex.group(2)), "demo_patched": int(ex.group(3)), "kinds": kinds}
+    status = json.loads(status_file.read_text()) if status_file.exists() else {}   # other instances may run in parallel
     status[f"{pid}/{n}"] = rec
     ok = rec["check_exit"] == 1 and rec["demo_clean"] == 0 and rec["demo_patched"] != 0
     print(f"{pid}/{n}: {'caught' if ok else 'ATTENTION'} {rec}", flush=True)
